@@ -114,19 +114,19 @@ func AccountYAML(a Account) string {
 }
 
 type Options struct {
-	Accounts        []Account // default: guest (typical guest bits) + admin (all bits, no password)
-	Agreement       string
-	Board           string
-	NewsYAML        string
-	PreserveForks   bool
-	IgnoreFiles     []string // nil → default patterns
-	Banner          []byte
-	BannerFile      string
-	Files           func(root string) // populates the file root
-	RootDepth       int               // nest the file root this many directories below Dir (for sandbox canaries)
-	Dir             string            // reuse this directory instead of creating one (restart)
-	NoOutbox        bool              // do not start processOutbox (handler-level checks drain the channel themselves)
-	NewsDateFormat  string
+	Accounts       []Account // default: guest (typical guest bits) + admin (all bits, no password)
+	Agreement      string
+	Board          string
+	NewsYAML       string
+	PreserveForks  bool
+	IgnoreFiles    []string // nil → default patterns
+	Banner         []byte
+	BannerFile     string
+	Files          func(root string) // populates the file root
+	RootDepth      int               // nest the file root this many directories below Dir (for sandbox canaries)
+	Dir            string            // reuse this directory instead of creating one (restart)
+	NoOutbox       bool              // do not start processOutbox (handler-level checks drain the channel themselves)
+	NewsDateFormat string
 }
 
 type Server struct {
